@@ -108,6 +108,9 @@ MISC = [
     "$s = 1; $s = $s + 1; print $s;",
     'r = tup(1, "a", 2.5, true, raw("b"), ii); r.set@1(2).set@2("b"); print r@1 r@2 r.count();',
     "b = raw(3, 65); b.put(0, 66).concat(67).insert(0, 68).delete(1); print b.count() b.at(0);",
+    # `do` before every shape of expression, print / put arguments that begin with a parenthesis after a name
+    'x = 1; do (1 + 2); do "abc".concat("d"); do x; do (x); do -x; do tab(1, 1).count(); do x + 1; print x;',
+    'x = 1; y = 2; print (x) (-1); print x (y); put (x) (y) (x + y); print ""; print x - 1 (x) "s" (x);',
     "x = null; x:integer; x = int(); y = num(); z = str(); w = raw(); v = bool(); u = tup(); t = tab(); print isnull(x) isnull(t);",
 ]
 
@@ -177,6 +180,9 @@ def corpus(tier):
         'import utf8; t = tab(1, utf8("a")); forall e in t loop print e.toupper().string(); end loop; r = tup(utf8("z"), 1); print r@1.string() t.at(0).count();',
         'import utf8; o:utf8; print isnull(o); o = utf8("k"); print o.string(); if o.count() == 1 then print (o.append("l")).rawsize(); end if;',
         'import file; f = file(); print f.isopen() f.separator().count();',
+        # typed declarations naming a module type
+        'import file; f:file; if false then print f.isopen(); end if; print isnull(f); function fo(p:file) return file is begin return p; end; print isnull(fo(f));',
+        'import utf8; u:utf8; u = utf8("d"); print u.count(); t:table; t = tab(1, u); print t.count();',
     ]
     for m in modules:
         yield "module", "", m
